@@ -1,11 +1,12 @@
 SPECIFICATION Spec
 CONSTANTS
-  MaxH = 3
+  MaxH = 2
   MaxRestarts = 1
   FullNode = FALSE
   Cap = 2
   Weaken = "none"
   GapFix = FALSE
+  CertRounds = {1}
   Direct = FALSE
   Timeouts = FALSE
 PROPERTY RestartCoversKnown
